@@ -557,14 +557,20 @@ def check_value(t, v, lazy, r: Result):
                f'{ts}.from_micheline_value({json.dumps(lit(t, v))[:400]}) -> {o["build"][1]}')
         return
     r.out('build|ok')
+    bad = []
     for mode in MODES:
         r.ev()
         res = o[mode]
         shape = 'seq' if isinstance(res[2], list) else next(iter(res[2])) if isinstance(res[2], dict) and 'prim' not in res[2] else 'prim' if res[2] is not None else '-'
         r.out(f'{mode}|{res[0]}|{shape}')
         if res[0] != 'ok':
-            r.viol(f'{mode}: {res[0]}: {blame(t, v, lazy, fails_mode(mode))}', case_of(t, v, lazy),
-                   f'{ts} value {json.dumps(lit(t, v))[:300]}: to_micheline_value({mode}) = {json.dumps(res[2])[:300] if res[2] is not None else "-"} -> {res[1]}')
+            bad.append((mode, res[0], blame(t, v, lazy, fails_mode(mode)),
+                        f'{ts} value {json.dumps(lit(t, v))[:300]}: to_micheline_value({mode}) = {json.dumps(res[2])[:300] if res[2] is not None else "-"} -> {res[1]}'))
+    opt = [b for b in bad if b[0] != 'readable']
+    if len(opt) == 2 and opt[0][1:3] == opt[1][1:3]:  # both optimized modes fail the same way: one finding
+        bad = [b for b in bad if b[0] == 'readable'] + [('optimized and legacy_optimized',) + opt[0][1:]]
+    for mode, what, who, detail in bad:
+        r.viol(f'{mode}: {what}: {who}', case_of(t, v, lazy), detail)
     if t == ('timestamp',) and o['readable'][0] == 'ok':
         r.ev()
         m = o['readable'][2]
